@@ -37,6 +37,13 @@ pub const NATIVE2: &[(&str, &str)] = &[
     // what was produced before the failure stays, nothing else (the model calls f(a) twice and
     // appends the results to the global list)
     ("C_RESIZEGL", "GL.resize_with((size GL) + 2, || f(a))"),
+    // entries of the persistent map updated in place by a function that may fail: a failed
+    // update leaves the entry as it was (the function hands the old value back, so the map is
+    // the same after a completed update too and the model needs no map state)
+    (
+        "C_UPDATEGM",
+        "(GM.update('ga', |x| f(a) * 0 + x), GM.update('gb', |x| f(a + 1) * 0 + x))",
+    ),
 ];
 
 #[derive(Clone, Copy, Debug, PartialEq, Eq, Hash)]
